@@ -164,19 +164,60 @@ Usage: ggqlgen [options] [<schema-file>...]
 		}
 	case 0 < len(stubDir):
 		var buf []byte
+		// The files are parsed as one text. The lines each of them takes up
+		// are noted so that -w and -e can tell which types are theirs.
+		type span struct {
+			file        string
+			first, last int
+		}
+		var spans []span
+		line := 1
 		for _, filepath = range files {
 			sdl, err := getSDL(filepath)
 			if err != nil {
 				log.Fatalf("Failed to read schema file %s: %s", filepath, err)
 			}
+			if 0 < len(sdl) && sdl[len(sdl)-1] != '\n' {
+				sdl = append(sdl, '\n')
+			}
+			n := strings.Count(string(sdl), "\n")
+			spans = append(spans, span{file: filepath, first: line, last: line + n - 1})
+			line += n
 			buf = append(buf, sdl...)
 		}
 		if err := root.Parse(buf); err != nil {
 			log.Fatalf("Failed to parse file %s: %s", filepath, err)
 		}
+		owner := func(line int) string {
+			for _, sp := range spans {
+				if sp.first <= line && line <= sp.last {
+					return sp.file
+				}
+			}
+			return ""
+		}
+		note := func(key string, line int) {
+			file := owner(line)
+			for _, e := range embeds.embeds {
+				if e.src == file {
+					e.types[key] = true
+				}
+			}
+			for _, o := range overs.overs {
+				if o.file == file {
+					o.types[key] = true
+				}
+			}
+		}
 		for _, t := range root.Types() {
 			if !t.Core() {
 				exists[t.Name()] = true
+				note(t.Name(), t.Line())
+			}
+		}
+		for _, t := range root.Directives() {
+			if !t.Core() {
+				note("@"+t.Name(), t.Line())
 			}
 		}
 	default:
